@@ -362,6 +362,14 @@ class SeriesVal:
 
         return self.derive(at=at, null=lambda i: z3.BoolVal(False), kind="bool")
 
+    def drop(self, labels=None, index=None, inplace=False, **kw):
+        if inplace:
+            raise Unsupported("Series.drop(inplace=True)")
+        rows = index if index is not None else labels
+        if rows is None:
+            return self.derive()
+        return self.derive(sel=_without_labels(self, rows))
+
     def unique(self):
         return SymSet(lambda v: self.exists(lambda i: z3.And(z3.Not(self.null(i)), _zb(py_eq(self.at(i), v)))), "unique",
                       has_null=self.exists(lambda i: self.null(i)))
@@ -643,6 +651,21 @@ class IndexVal:
         return SBool(z3.ForAll([i, j], z3.Implies(z3.And(o.sel(i), o.sel(j), i < j), o.label(i) != o.label(j))))
 
 
+def _without_labels(view, labels):
+    """drop(index=labels): EVERY row whose label is one of `labels` goes - with a repeated label, all the rows that carry it"""
+    if isinstance(labels, LabelSel):
+        o = labels.owner
+
+        def sel(i):
+            j = _i("j")
+            return z3.And(view._sel(i), z3.Not(z3.Exists([j], z3.And(o.space.inb(j), labels.sel(j), o.label(j) == view.label(i)))))
+
+        return sel
+    if isinstance(labels, LabelSeries):
+        return lambda i: z3.And(view._sel(i), z3.Not(_zb(labels.member(view.label(i)))))
+    raise Unsupported(f"drop(index={type(labels).__name__})")
+
+
 class LabelSel:
     """index[mask]: labels of a sub-selection of rows of `owner`"""
 
@@ -919,11 +942,14 @@ class FrameVal:
             return
         raise Unsupported(f"DataFrame.{name} = ...")
 
-    def drop(self, labels=None, axis=0, inplace=False, **kw):
+    def drop(self, labels=None, axis=0, index=None, columns=None, inplace=False, **kw):
         if inplace:
             self.mutations.append(("drop", labels))
             cur().event("data_write", self, "drop")
             return None
+        rows = index if index is not None else (labels if labels is not None and axis in (0, "index") and columns is None else None)
+        if rows is not None:
+            return self.derive(sel=_without_labels(self, rows))
         f = self.derive()
         return f
 
